@@ -189,10 +189,14 @@ func checkC09(c WKCase, st *stats.Collector) error {
 	for i, it := range baseIt.Items {
 		seqPos[it.M.Sequence] = i
 	}
-	for cut := 0; cut < 2*len(file); cut++ {
+	for cut := 0; cut < 3*len(file); cut++ {
 		// cuts >= len(file) revisit every third cut: the same Reader scans the remainder a second time (a tool
-		// that first looks how much survived and then processes it); the second scan is judged like the first
-		second := cut >= len(file)
+		// that first looks how much survived and then processes it); the second scan is judged like the first.
+		// cuts >= 2*len(file) revisit another third: the Reader is first asked for Info (or scanned once), then
+		// for Messages() with default options - an error is an answer (the index is gone); if the library
+		// chooses to read the remainder sequentially instead, that read is judged like the others
+		second := cut >= len(file) && cut < 2*len(file)
+		third := cut >= 2*len(file)
 		if second {
 			cut -= len(file)
 			if cut%3 != 0 {
@@ -200,8 +204,23 @@ func checkC09(c WKCase, st *stats.Collector) error {
 				continue
 			}
 		}
+		if third {
+			cut -= 2 * len(file)
+			if cut%3 != 1 {
+				cut += 2 * len(file)
+				continue
+			}
+		}
 		var res mc.IterResult
-		if second {
+		if third {
+			res = readAfterPrelude(bytesReader(file[:cut]), cut/3%2)
+			if res.OpenErr != nil && res.Panic == "" {
+				st.Note("default-Messages-on-cut-file:error")
+				cut += 2 * len(file)
+				continue
+			}
+			st.Note("default-Messages-on-cut-file:reads")
+		} else if second {
 			_, res = mc.ReadMessagesTwice(bytesReader(file[:cut]), mcap.UsingIndex(false))
 		} else {
 			res = mc.ReadMessages(bytes.NewReader(file[:cut]), false, false, 0, mcap.UsingIndex(false))
@@ -237,10 +256,13 @@ func checkC09(c WKCase, st *stats.Collector) error {
 			}
 		}
 		if len(res.Items) < need {
-			return pk.Failf("incomplete", "iterator (second scan on the same Reader: %v), cut at %d: %d messages returned (open=%v err=%v); chunks completely written before the cut hold %d", second, cut, len(res.Items), res.OpenErr, res.Err, need)
+			return pk.Failf("incomplete", "iterator (second scan on the same Reader: %v; Messages() with default options after Info or a scan: %v), cut at %d: %d messages returned (open=%v err=%v); chunks completely written before the cut hold %d", second, third, cut, len(res.Items), res.OpenErr, res.Err, need)
 		}
 		if second {
 			cut += len(file)
+		}
+		if third {
+			cut += 2 * len(file)
 		}
 	}
 	nt := 0
@@ -263,6 +285,45 @@ func checkC09(c WKCase, st *stats.Collector) error {
 	_ = errors.Is
 	_ = io.EOF
 	return nil
+}
+
+// readAfterPrelude asks one Reader for Info (prelude 0) or scans it once (prelude 1), ignoring the outcome, and then
+// reads Messages() with default options.
+func readAfterPrelude(r io.Reader, prelude int) (res mc.IterResult) {
+	defer func() {
+		if x := recover(); x != nil {
+			res.Panic = fmt.Sprint(x)
+		}
+	}()
+	rd, err := mcap.NewReader(r)
+	if err != nil {
+		res.OpenErr = err
+		return
+	}
+	defer rd.Close()
+	if prelude == 0 {
+		_, _ = rd.Info()
+	} else if it, err := rd.Messages(mcap.UsingIndex(false)); err == nil {
+		for n := 0; n < 1<<20; n++ {
+			if _, _, _, err := it.NextInto(nil); err != nil {
+				break
+			}
+		}
+	}
+	it, err := rd.Messages()
+	if err != nil {
+		res.OpenErr = err
+		return
+	}
+	for len(res.Items) < 1<<20 {
+		s, c, m, err := it.NextInto(nil)
+		if err != nil {
+			res.Err = err
+			return
+		}
+		res.Items = append(res.Items, mc.Triple{S: mc.FromSchema(s), C: mc.FromChannel(c), M: mc.FromMessage(m)})
+	}
+	return
 }
 
 func TestC09(t *testing.T) {
